@@ -27,18 +27,16 @@ PYOPS = {
 
 
 def exc_match(err, exc):
-    """Python's own `except exc:` for a raised `err` (instance or class)."""
+    """CPython's own `except exc:` for a raised `err` (instance or class), by a real try/except.
+    No identity test on the caught object: CPython re-instantiates an exception whose metaclass's
+    __instancecheck__ denies it.  A malformed handler makes the `except exc` test itself raise
+    TypeError, which leaves the try statement (sibling clauses do not catch it)."""
     try:
-        try:
-            raise err
-        except exc:
-            return True
-    except BaseException as e:  # noqa: BLE001
-        if isinstance(err, BaseException) and e is err:
-            return False
-        if isinstance(err, type) and type(e) is err and not e.args:
-            return False
-        raise
+        raise err
+    except exc:
+        return True
+    except BaseException:  # noqa: BLE001
+        return False
 
 
 def py_eval(kind, a, b):
@@ -177,6 +175,10 @@ def oracle(case, ev):
     if sut[0] == "ret":
         if (dt == 0) != sut[1]:
             why = "" if ref == sut else f" (without the tracer the outcome is {ref[1]}: the tracer changed an operand)"
+            if kind == "EXC" and V.handler_has_subclasscheck(V.build(case["b"])):
+                return ("outcome:EXC:subclasscheck-handler",
+                        f"distances ({dt!r}, {df!r}) but CPython's own `except` clause yields {sut[1]}: the handler's "
+                        "metaclass defines __subclasscheck__, which issubclass() asks and CPython does not")
             return (f"outcome:{kind}", f"distances ({dt!r}, {df!r}) but Python's own operator yields {sut[1]}{why}")
     elif kind not in ("INP", "EXC") and ref[0] == "raise":
         return (f"recorded-without-outcome:{kind}", f"distances ({dt!r}, {df!r}) recorded although Python's own operator raises {ref[1]}")
@@ -284,6 +286,7 @@ def run(ctx: vlib.Ctx):
     for _ in range(n):
         cases.append(gen_case(ctx.rng))
     coq_cases, recs, n_fail, extra = [], [], 0, 0
+    failing_idx = set()
     reported: dict = {}
     for case in cases:
         ev = evaluate(impl, case)
@@ -308,6 +311,7 @@ def run(ctx: vlib.Ctx):
         r = oracle(case, ev)
         if r:
             n_fail += 1
+            failing_idx.add(len(recs) - 1)
             sig, msg = r
             if sig not in reported and len(reported) < 40:
                 small = shrink(impl, case, sig)
@@ -333,14 +337,16 @@ def run(ctx: vlib.Ctx):
     # K2a: the callbacks
     bad = ctx.run_cases("C04_cases", "From Coq Require Import PrimFloat.\nFrom Verif Require Import Models.C04.",
                         "C04.case", "C04.check_case", coq_cases)
+    unexplained = [i for i in (bad or []) if i not in failing_idx]
     if bad:
-        ctx.leg("K2", ok=False, mismatches=len(bad), exact_call_site=impl.exact)
-        if n_fail == 0:
-            case, ev = recs[bad[0]]
+        ctx.leg("K2", ok=not unexplained, mismatches=len(bad), mismatches_without_oracle_failure=len(unexplained),
+                exact_call_site=impl.exact)
+        if unexplained:
+            case, ev = recs[unexplained[0]]
             ctx.broken("correspondence:C04-model-vs-tracer",
                        "the distance model (about which the theorems are proved) no longer reproduces the tracer callbacks",
                        {"case": case, "python": ev["ref"], "tracer": repr(ev["out"]), "heuristic": repr(ev["raw"]),
-                        "mismatching_cases": len(bad)})
+                        "mismatching_cases": len(unexplained)})
     elif bad is not None:
         ctx.leg("K2", ok=True, cases=len(coq_cases), exact_call_site=impl.exact)
     # K2b: string heuristics
